@@ -262,6 +262,7 @@ pub fn bfs_hook<W: World, F: FnMut(&[W::Action], &[u16], &mut Stats)>(
                 };
                 marker.mark(ids.0, ids.1, &node.choices, i as u16);
                 let mut viols = w2.step(a, true);
+                also_as_c04(cfg, &mut viols);
                 if cfg.armed.contains(&"C11") && !w2.dead() {
                     viols.extend(audit_violations(w2.audit()));
                 }
@@ -400,6 +401,7 @@ pub fn run_history<W: World>(prog: &W::Prog, cfg: &Cfg, hist: &[W::Action]) -> (
     let mut explain = vec![];
     for (i, a) in hist.iter().enumerate() {
         let mut vs = w.step(a, true);
+        also_as_c04(cfg, &mut vs);
         if cfg.armed.contains(&"C11") && !w.dead() {
             vs.extend(audit_violations(w.audit()));
         }
